@@ -650,6 +650,14 @@ func (r *RegisteredDecoys) register(darkDecoyAddr string, d *DecoyRegistration) 
 		return nil
 	}
 
+	if reg != d {
+		// Another delivery of this registration was tracked first, but d is
+		// the delivery that passed admission. The covert address that may be
+		// dialed is the one that was checked (and resolved) for d, not
+		// whatever the tracked delivery carried.
+		reg.Covert = d.Covert
+	}
+
 	reg.Valid = true
 	r.registerForDetector(reg)
 
